@@ -194,6 +194,8 @@ type seqModel struct {
 	// held operations for the same key resolve in one cascade their order is the
 	// server's (map iteration) choice, so the surviving payload may be any of them.
 	alts map[Key][]*opRec
+	// impl: the implementation's installed entries (to follow operations of unspecified validity)
+	impl Snapshot
 }
 
 func (q *seqModel) note(rec *opRec, en *Entry) {
@@ -210,6 +212,9 @@ func (q *seqModel) matches(impl Snapshot) (bool, []Diff) {
 	var rest []Diff
 	for _, d := range ds {
 		fixed := false
+		if en := q.m.Tab[d.Key]; d.What == "payload" && en != nil && en.Loose {
+			continue // content of an operation of unspecified validity: not predicted
+		}
 		if d.What == "payload" {
 			for _, rec := range q.alts[d.Key] {
 				_, en, _ := q.m.Analyse(rec.op)
@@ -259,6 +264,20 @@ func (q *seqModel) apply(it cutItem) {
 		}
 	case VHold:
 		q.held[it.rec.op.GetId()] = it.rec
+	case VEither:
+		// unspecified validity: it may or may not have been accepted - follow the implementation
+		if en != nil && q.impl != nil {
+			_, has := q.impl[en.Key]
+			if it.rec.op.GetOp() == spb.AFTOperation_DELETE {
+				if !has {
+					q.m.Apply(it.rec.op, en)
+				}
+			} else if has {
+				en.Loose = true
+				q.m.Apply(it.rec.op, en)
+				q.cascade()
+			}
+		}
 	}
 }
 
@@ -301,7 +320,7 @@ func (e *env) heldRecs() map[uint64]*opRec {
 
 // matchPrefix finds a prefix of items (beyond those already acknowledged) that
 // explains the implementation's state; it commits the model to it.
-func (e *env) matchPrefix(items []cutItem, minK int, what string) bool {
+func (e *env) matchPrefix(items []cutItem, minK int, what string, last *[2]uint64, prop string) bool {
 	impl := e.implSnapshot()
 	implHeld := map[uint64]bool{}
 	for _, p := range e.srv.VerifRIB().VerifPending() {
@@ -312,7 +331,7 @@ func (e *env) matchPrefix(items []cutItem, minK int, what string) bool {
 	if id != nil {
 		implMax = [2]uint64{id.High, id.Low}
 	}
-	q := &seqModel{m: e.model.Clone(), held: e.heldRecs(), max: e.maxElec}
+	q := &seqModel{m: e.model.Clone(), held: e.heldRecs(), max: e.maxElec, last: last, impl: impl}
 	bestK, bestDesc, bestN := -1, "", 1<<30
 	for k := 0; ; k++ {
 		okSnap := false
@@ -369,7 +388,7 @@ func (e *env) matchPrefix(items []cutItem, minK int, what string) bool {
 		}
 		q.apply(items[k])
 	}
-	q0 := &seqModel{m: e.model.Clone(), held: e.heldRecs(), max: e.maxElec}
+	q0 := &seqModel{m: e.model.Clone(), held: e.heldRecs(), max: e.maxElec, last: last}
 	for _, it := range items[:minK] {
 		q0.apply(it)
 	}
@@ -382,11 +401,11 @@ func (e *env) matchPrefix(items []cutItem, minK int, what string) bool {
 				}
 			}
 			if !found {
-				e.report("C10", "election-changed", "highest election id is not one that was announced", fmt.Sprintf("%s: server has %v", what, implMax), false)
+				e.report(prop, "election-changed", "highest election id is not one that was announced", fmt.Sprintf("%s: server has %v", what, implMax), false)
 			}
 		}
 		_ = bestK
-		e.report("C10", "state-after-disconnect", "installed entries / election id match no prefix of what the client sent", fmt.Sprintf("%s: %d items sent, at least %d acknowledged; %s", what, len(items), minK, bestDesc), false)
+		e.report(prop, "state-after-disconnect", "installed entries / election id match no prefix of what the client sent", fmt.Sprintf("%s: %d items sent, at least %d acknowledged; %s", what, len(items), minK, bestDesc), false)
 	})
 	return false
 }
@@ -581,7 +600,7 @@ func (e *env) cutModify(script []*Step, cut *Step) {
 		}
 	}
 	e.checkpoint(func() {
-		if e.matchPrefix(items, minK, fmt.Sprintf("%s after %d messages sent, %d responses read", cut.Note, nsent, nread)) {
+		if e.matchPrefix(items, minK, fmt.Sprintf("%s after %d messages sent, %d responses read", cut.Note, nsent, nread), nil, "C10") {
 			if cut.Note == "halfclose" {
 				// nothing may be lost on a clean half-close: everything sent was processed
 				for _, it := range items {
